@@ -180,9 +180,9 @@ func matchJSONValue(v GVal, n jnode) string {
 		return arr(len(v.Strs), func(i int, e jnode) bool { return isStr(e, fixUTF8(v.Strs[i])) })
 	case "bools":
 		return arr(len(v.Bools), func(i int, e jnode) bool { return e.Kind == "bool" && e.B == v.Bools[i] })
-	case "ints", "int64s":
+	case "ints", "int64s", "int8s", "int16s", "int32s":
 		return arr(len(v.Ints), func(i int, e jnode) bool { return e.Kind == "number" && e.S == strconv.FormatInt(v.Ints[i], 10) })
-	case "uint64s", "uint16s":
+	case "uint64s", "uint16s", "uints", "uint32s":
 		return arr(len(v.Uints), func(i int, e jnode) bool {
 			u := v.Uints[i]
 			if v.Kind == "uint16s" {
